@@ -486,6 +486,24 @@ def _traversal(ctx: Ctx, rep: Report, f: Func) -> None:  # noqa: C901
     elif isinstance(it, ast.Call) and isinstance(it.func, ast.Name) and it.func.id in ("zip", "map", "starmap") or (isinstance(it, ast.Call) and src(it.func).startswith("itertools.")):
         # the numbers are computed beforehand and paired with the items (`zip(items, numbers)`): not the running-number
         # shape this rule reads - what each item gets cannot be read off the loop
+        # ... except for one hazard that can be read off: zip() stops at the shorter argument, so numbers taken from a
+        # range with a fixed end run out silently - the items after that keep their old numbers and no error is raised
+        defs0: Dict[str, ast.AST] = {}
+        for n0 in own_nodes(f.node):
+            if isinstance(n0, ast.Assign) and len(n0.targets) == 1 and isinstance(n0.targets[0], ast.Name):
+                defs0[n0.targets[0].id] = n0.value
+            elif isinstance(n0, ast.AnnAssign) and isinstance(n0.target, ast.Name) and n0.value is not None:
+                defs0[n0.target.id] = n0.value
+        bounded = None
+        if isinstance(it, ast.Call) and isinstance(it.func, ast.Name) and it.func.id == "zip":
+            for a0 in it.args:
+                e0 = defs0.get(a0.id, a0) if isinstance(a0, ast.Name) else a0
+                for y0 in ast.walk(e0):
+                    if isinstance(y0, ast.Call) and isinstance(y0.func, ast.Name) and y0.func.id == "range" and len(y0.args) >= 2 and "len(" not in src(y0.args[1]):
+                        bounded = y0
+        if bounded is not None:
+            rep.violation(f.qualname, f"for ... in {snippet(it, 40)}  <-  {snippet(bounded, 50)}", "the numbers are taken from a range with a fixed end and paired with the items by zip(), which stops at the shorter argument: when the numbers run out the remaining items keep their old numbers and nothing is raised (the returned last number stays below the limit)", where(f, it), inp="AddrGroup with 5 members; resequence(start=4294967290, step=2)")
+            return
         rep.note(f"R10.4 {f.qualname}: the loop pairs the items with numbers computed elsewhere (`{snippet(it, 40)}`) - order and step of the numbering not judged")
         return
     paths = function_paths(cfg)
